@@ -57,7 +57,12 @@ def compile_installation(gen, ai):
                                   names=ai["names"])
     fan_keys = ["auto", "quiet", "low", "medium", "high", "powerful", "turbo"]
     inst["version"] = (False, ["1.2.3", "1.2.2"])
-    for a, d in zip(inst["acs"], ai["acs"]):
+    inverted = (sum(ai["parts"]) * 3 + len(ai["names"])) % 6 == 2
+    for j, (a, d) in enumerate(zip(inst["acs"], ai["acs"])):
+        if inverted and j == 0:
+            # a unit whose ability record gives a minimum above its maximum (both formats can
+            # say so): whatever a set-point request then means, it means the same on both
+            d = dict(d, min=d["max"], max=d["min"])
         ab = a["ability"]
         ab["name"] = d["name"]
         ab["modes"] = {k.lower(): bool(d["modes"] >> j & 1) for j, k in enumerate(K.MODES)}
